@@ -194,7 +194,7 @@ func (r *recorder) pick(label string, n int) int {
 	return v
 }
 
-var seps = []string{" ", "  ", "\t", "\n", "\r\n", " \n\t", " # a comment\n", "\n# note: 100% of x > y\n", " # this %> does not end the tag, nor does <% open one\n", " "}
+var seps = []string{" ", "  ", "\t", "\n", "\r\n", " \n\t", " # a comment\n", "\n# note: 100% of x > y\n", " # this %> does not end the tag, nor does <% open one\n", " # first\n # second\n", "\n# one\n\n\t# two\r\n# three\n", " "}
 
 func isPunct(tok string) bool {
 	switch tok {
@@ -442,7 +442,7 @@ func fixedPrograms() [][]model.Node {
 	}
 }
 
-const rule = "programs: (E) 9 fixed programs (runs of silent statements; statements directly after the closing brace of if / for / function; loops with continue; hash and array literals; strings containing # and tag delimiters) x both printers (tag per statement, compact single-tag blocks) x 600 enumerated layout decision vectors each; (R) random programs over all constructs from the shared generator. Re-layouts: between any two tokens of a tag one of {space, two spaces, tab, newline, CRLF, mixed white space, '# comment' + newline, a line comment containing % and >, nothing where no two tokens can fuse}; comment tags (empty, quoted, multi-line, code-like) between tags at top level and inside blocks; merging of adjacent silent tags (and of a silent tag into a preceding tag that opens a block) ; cutting a tag at statement boundaries; ';' between statements; the same applied to partial texts. Oracle: the variant renders exactly what the canonical layout renders (same output, or the same error modulo 'line N:'), and the canonical layout agrees with the reference interpreter. Excluded by construction: no space next to '-' / '.' inside identifiers and numbers, statements beginning with ( [ or { are never joined to a previous tag (after an expression they continue it: call, index, helper block), a # line comment never directly follows '<%' and never precedes '%>' on the same line, top-level return. Non-trivial = the variant text differs from the canonical text; distinct by variant text."
+const rule = "programs: (E) 9 fixed programs (runs of silent statements; statements directly after the closing brace of if / for / function; loops with continue; hash and array literals; strings containing # and tag delimiters) x both printers (tag per statement, compact single-tag blocks) x 600 enumerated layout decision vectors each; (R) random programs over all constructs from the shared generator. Re-layouts: between any two tokens of a tag one of {space, two spaces, tab, newline, CRLF, mixed white space, '# comment' + newline, a line comment containing % and >, two and three line comments in a row, nothing where no two tokens can fuse}; comment tags (empty, quoted, multi-line, code-like) between tags at top level and inside blocks; merging of adjacent silent tags (and of a silent tag into a preceding tag that opens a block) ; cutting a tag at statement boundaries; ';' between statements; the same applied to partial texts. Oracle: the variant renders exactly what the canonical layout renders (same output, or the same error modulo 'line N:'), and the canonical layout agrees with the reference interpreter. Excluded by construction: no space next to '-' / '.' inside identifiers and numbers, statements beginning with ( [ or { are never joined to a previous tag (after an expression they continue it: call, index, helper block), a # line comment never directly follows '<%' and never precedes '%>' on the same line, top-level return. Non-trivial = the variant text differs from the canonical text; distinct by variant text."
 
 func setup(t *testing.T) *vk.Run {
 	r := vk.Start(t, "C18", rule,
